@@ -345,6 +345,92 @@ pub fn lpg_scenarios(three: bool) -> Vec<Scenario<Lpg>> {
 }
 
 // ---------------------------------------------------------------------------
+// LPG operation-pair matrix: every unordered pair of the public mutators / readers below, forced onto the same
+// node (2), edge (0) and property key (k), on a base store with and without a property index on k.
+// ---------------------------------------------------------------------------
+
+/// nodes 0,1,2 (label L), edge 0: 0->1, k=0 on nodes 0 and 2; node 2 is detached (delete_node is documented as
+/// non-cascading, so it is only issued on a node without edges).
+fn lpg_matrix_base() -> Lpg {
+    let st = LpgStore::new();
+    let a = st.create_node(&["L"]);
+    let b = st.create_node(&["L"]);
+    let c = st.create_node(&["L"]);
+    st.create_edge(a, b, "K");
+    st.set_node_property(a, "k", Value::Int64(0));
+    st.set_node_property(c, "k", Value::Int64(0));
+    Lpg { st, created: Mutex::new(vec![]) }
+}
+fn lpg_matrix_base_indexed() -> Lpg {
+    let o = lpg_matrix_base();
+    o.st.create_property_index("k");
+    o
+}
+
+/// (name, operation, touches node 2's properties, is delete_node(2))
+type MOp = (&'static str, fn(&Lpg, usize) -> String, bool, bool);
+
+fn lpg_matrix_ops() -> Vec<MOp> {
+    fn unit(_: ()) -> String {
+        "()".into()
+    }
+    vec![
+        ("create_node(L)", |o, t| { let id = o.st.create_node(&["L"]); o.created.lock().unwrap().push((t, id)); "created".into() }, false, false),
+        ("delete_node(2)", |o, _| format!("{}", o.st.delete_node(n(2))), false, true),
+        ("add_label(2,L2)", |o, _| format!("{}", o.st.add_label(n(2), "L2")), false, false),
+        ("remove_label(2,L)", |o, _| format!("{}", o.st.remove_label(n(2), "L")), false, false),
+        ("set(2,k,1)", |o, _| unit(o.st.set_node_property(n(2), "k", Value::Int64(1))), true, false),
+        ("set(2,k,2)", |o, _| unit(o.st.set_node_property(n(2), "k", Value::Int64(2))), true, false),
+        ("remove_property(2,k)", |o, _| format!("{:?}", o.st.remove_node_property(n(2), "k")), true, false),
+        ("create_edge(0,1,K)", |o, _| format!("{:?}", o.st.create_edge(n(0), n(1), "K")), false, false),
+        ("create_edge(1,0,K)", |o, _| format!("{:?}", o.st.create_edge(n(1), n(0), "K")), false, false),
+        ("delete_edge(0)", |o, _| format!("{}", o.st.delete_edge(EdgeId::new(0))), false, false),
+        ("delete_node_edges(0)", |o, _| unit(o.st.delete_node_edges(n(0))), false, false),
+        ("create_property_index(k)", |o, _| unit(o.st.create_property_index("k")), false, false),
+        ("drop_property_index(k)", |o, _| format!("{}", o.st.drop_property_index("k")), false, false),
+        ("compute_statistics()", |o, _| unit(o.st.compute_statistics()), false, false),
+        ("set_edge_property(0,w,1)", |o, _| unit(o.st.set_edge_property(EdgeId::new(0), "w", Value::Int64(1))), false, false),
+        ("read:nodes_by_label(L)", |o, _| format!("{:?}", o.st.nodes_by_label("L").iter().map(|x| x.as_u64()).collect::<Vec<_>>()), false, false),
+        ("read:find_nodes_by_property(k,0)", |o, _| { let mut v: Vec<u64> = o.st.find_nodes_by_property("k", &Value::Int64(0)).iter().map(|x| x.as_u64()).collect(); v.sort(); format!("{v:?}") }, false, false),
+        ("read:edges_from(0)", |o, _| { let mut v: Vec<(u64, u64)> = o.st.edges_from(n(0), Direction::Outgoing).map(|(d, e)| (d.as_u64(), e.as_u64())).collect(); v.sort(); format!("{v:?}") }, false, false),
+        ("read:get_node(2)", |o, _| o.st.get_node(n(2)).map_or("None".to_string(), |x| { let mut l: Vec<String> = x.labels.iter().map(|s| s.to_string()).collect(); l.sort(); format!("{l:?}{:?}", x.properties.iter().map(|(k, v)| format!("{}={v:?}", k.as_str())).collect::<Vec<_>>()) }), false, false),
+        ("read:node_count+edge_count", |o, _| format!("{}/{}", o.st.node_count(), o.st.edge_count()), false, false),
+    ]
+}
+
+pub fn lpg_matrix_scenarios() -> Vec<Scenario<Lpg>> {
+    let ops = lpg_matrix_ops();
+    let mut v = vec![];
+    for (base, make) in [("plain", lpg_matrix_base as fn() -> Lpg), ("indexed", lpg_matrix_base_indexed as fn() -> Lpg)] {
+        for i in 0..ops.len() {
+            for j in i..ops.len() {
+                let (a, b) = (&ops[i], &ops[j]);
+                // two reads never conflict
+                if a.0.starts_with("read:") && b.0.starts_with("read:") {
+                    continue;
+                }
+                // property writes on a deleted node are outside the documented domain (kept in S2b, invariants only)
+                if (a.3 && b.2) || (b.3 && a.2) {
+                    continue;
+                }
+                let name: &'static str = Box::leak(format!("M-{base}:{}||{}", a.0, b.0).into_boxed_str());
+                let bname: &'static str = if i == j { Box::leak(format!("{}'", b.0).into_boxed_str()) } else { b.0 };
+                v.push(Scenario {
+                    name,
+                    what: "operation-pair matrix: both operations collide on node 2 / edge 0 / key k; linearizable, lookup structures agree with the primary data, no panic, no deadlock",
+                    make,
+                    threads: vec![vec![Op { name: a.0, f: a.1 }], vec![Op { name: bname, f: b.1 }]],
+                    observe: lpg_observe,
+                    invariants: lpg_invariants,
+                    linearizable: true,
+                });
+            }
+        }
+    }
+    v
+}
+
+// ---------------------------------------------------------------------------
 // RDF store scenarios (S6)
 // ---------------------------------------------------------------------------
 
